@@ -8,6 +8,12 @@ pub mod parser;
 mod serde;
 pub mod subtags;
 
+/// Verification hook (add-only, off by default): read-only access to the compiled direction tables.
+#[cfg(unic_locale_verif)]
+pub mod verif_layout {
+    pub use crate::layout_table::*;
+}
+
 pub use crate::errors::LanguageIdentifierError;
 use std::fmt::Write;
 use std::iter::Peekable;
